@@ -336,12 +336,12 @@ func (w *World) MintTokens(q *MMintQuote, outs []Out, signature string) (cashu.B
 	if q.LockPriv != nil && !Nut20Valid(q.LockPriv, q.ID, msgs, signature) {
 		w.Flag("C03", "nut20_invalid_signature_accepted", "quote %d locked; signature %q not valid for outputs", q.Idx, signature)
 	}
-	w.recordSignatures("mint", outs, sigs)
+	w.RecordSignatures("mint", outs, sigs)
 	return sigs, nil
 }
 
 // recordSignatures books returned signatures and adds the unblinded proofs to the client's holdings.
-func (w *World) recordSignatures(op string, outs []Out, sigs cashu.BlindedSignatures) {
+func (w *World) RecordSignatures(op string, outs []Out, sigs cashu.BlindedSignatures) {
 	if len(sigs) != len(outs) {
 		w.Flag("C20", "signature_count|"+op, "%d outputs, %d signatures", len(outs), len(sigs))
 	}
@@ -382,7 +382,7 @@ func (w *World) recordSignatures(op string, outs []Out, sigs cashu.BlindedSignat
 // ---------------------------------------------------------------- swap
 
 // acceptInputs books inputs that a successful operation consumed (or locked) and flags conflicts.
-func (w *World) acceptInputs(op string, inputs cashu.Proofs, to PState, quote int) {
+func (w *World) AcceptInputs(op string, inputs cashu.Proofs, to PState, quote int) {
 	seen := map[string]bool{}
 	for _, in := range inputs {
 		mp := w.M.Proofs[in.Secret]
@@ -449,8 +449,8 @@ func (w *World) Swap(inputs cashu.Proofs, outs []Out) (cashu.BlindedSignatures, 
 	if outSum+fee > inSum {
 		w.Flag("C02", "swap_outputs_exceed_inputs_minus_fee", "inputs %d (true value), fee %d, outputs %d", inSum, fee, outSum)
 	}
-	w.acceptInputs("swap", inputs, Spent, -1)
-	w.recordSignatures("swap", outs, sigs)
+	w.AcceptInputs("swap", inputs, Spent, -1)
+	w.RecordSignatures("swap", outs, sigs)
 	return sigs, nil
 }
 
@@ -552,7 +552,7 @@ func (w *World) MeltTokens(q *MMeltQuote, inputs cashu.Proofs) (storage.MeltQuot
 		if inSum < q.Amount+q.FeeReserve+fee {
 			w.Flag("C02", "melt_underfunded", "inputs %d < amount %d + fee_reserve %d + fee %d", inSum, q.Amount, q.FeeReserve, fee)
 		}
-		w.acceptInputs("melt", inputs, Spent, q.Idx)
+		w.AcceptInputs("melt", inputs, Spent, q.Idx)
 		q.State, q.Preimage = nut05.Paid, r.Preimage
 		q.Inputs = secretsOf(inputs)
 		w.checkPaidTruth(q, "melt")
@@ -563,7 +563,7 @@ func (w *World) MeltTokens(q *MMeltQuote, inputs cashu.Proofs) (storage.MeltQuot
 		if inSum < q.Amount+q.FeeReserve+fee {
 			w.Flag("C02", "melt_underfunded", "inputs %d < amount %d + fee_reserve %d + fee %d", inSum, q.Amount, q.FeeReserve, fee)
 		}
-		w.acceptInputs("melt", inputs, Pending, q.Idx)
+		w.AcceptInputs("melt", inputs, Pending, q.Idx)
 		q.State = nut05.Pending
 		q.Inputs = secretsOf(inputs)
 	case nut05.Unpaid:
@@ -618,7 +618,7 @@ func (w *World) checkPaidTruth(q *MMeltQuote, where string) {
 }
 
 // adoptMeltState moves the model of a PENDING quote to what the mint now reports, if the LN ground truth permits it.
-func (w *World) adoptMeltState(q *MMeltQuote, st nut05.State, preimage, where string) {
+func (w *World) AdoptMeltState(q *MMeltQuote, st nut05.State, preimage, where string) {
 	if q.State != nut05.Pending || st == nut05.Pending {
 		if q.State != st && !(q.State == nut05.Pending) {
 			w.Flag("C05", "final_state_changed|"+where, "quote %d was %s now %s", q.Idx, q.State, st)
@@ -663,7 +663,7 @@ func (w *World) PollMeltQuote(q *MMeltQuote) (storage.MeltQuote, error) {
 	if err != nil {
 		return r, err
 	}
-	w.adoptMeltState(q, r.State, r.Preimage, "poll")
+	w.AdoptMeltState(q, r.State, r.Preimage, "poll")
 	// liveness half of C05 (consistent truth only): once the backend knows the final outcome the next poll adopts it
 	if wasPending && w.statusAnsweredTruth(stFrom) {
 		if before == lnmodel.TruthSucceeded && r.State != nut05.Paid {
@@ -701,7 +701,7 @@ func (w *World) CheckState(ys []string) ([]nut07.ProofState, error) {
 	for _, q := range w.M.MeltQuotes {
 		if q.State == nut05.Pending {
 			if row, e := w.Inner().GetMeltQuote(q.ID); e == nil && row.State != nut05.Pending {
-				w.adoptMeltState(q, row.State, row.Preimage, "checkstate")
+				w.AdoptMeltState(q, row.State, row.Preimage, "checkstate")
 			}
 		}
 	}
@@ -843,4 +843,28 @@ func (l MProofs) Proofs() cashu.Proofs {
 		out[i] = p.P
 	}
 	return out
+}
+
+// RecordSignaturesKnown books signatures for outputs of which some may lack a blinding factor (R == nil):
+// those are booked as issued value only.
+func (w *World) RecordSignaturesKnown(op string, outs []Out, sigs cashu.BlindedSignatures) {
+	var known []Out
+	var ksigs cashu.BlindedSignatures
+	for i := 0; i < len(outs) && i < len(sigs); i++ {
+		if outs[i].R == nil {
+			w.M.Issued[sigs[i].Id] += sigs[i].Amount
+			if _, dup := w.M.Signed[outs[i].Msg.B_]; !dup {
+				rec := SignedRec{B_: outs[i].Msg.B_, Amount: sigs[i].Amount, Keyset: sigs[i].Id, C_: sigs[i].C_, Seq: len(w.M.SignedOrder)}
+				if sigs[i].DLEQ != nil {
+					rec.E, rec.S = sigs[i].DLEQ.E, sigs[i].DLEQ.S
+				}
+				w.M.Signed[outs[i].Msg.B_] = rec
+				w.M.SignedOrder = append(w.M.SignedOrder, outs[i].Msg.B_)
+			}
+			continue
+		}
+		known = append(known, outs[i])
+		ksigs = append(ksigs, sigs[i])
+	}
+	w.RecordSignatures(op, known, ksigs)
 }
